@@ -390,7 +390,12 @@ def parse_group(toks, i):
             count, nloc, nstr = int(toks[i + 1]), int(toks[i + 2]), int(toks[i + 3])
             g, i = parse_group(toks, i + 4)
             entries.append((k, ("N", count, nloc, nstr, g)))
-        elif toks[i] in ("M", "X"):
+        elif toks[i] == "X":
+            # the block has no nested Locale for this top locale (`X <number of nested locales>`): kept as a block that
+            # expects an impossible number of strings, so that the spec predicate names it
+            entries.append((k, ("N", 2 ** 64 - 1, int(toks[i + 1]), 0, [])))
+            i += 2
+        elif toks[i] == "M":
             raise Shape("locale has no value for key %r of the generated code (%s)" % (k, toks[i]))
         else:
             v, i = parse_value(toks, i)
